@@ -29,6 +29,8 @@ def build(case):
     B = case.get("B", 16)
     rng = random.Random(case["seed"] * 7919 + 13)
     net = scenario.random_net(rng, allow_small_pipe=case.get("small_pipe", True))
+    if case["script"] == "flood_quit":
+        net["capacity"], net["high_water"] = rng.choice([(64, 64), (7, 8), (256, 128)])
     if case["script"] == "stalled_reader":
         # narrow pipes: the file exceeds what network and transport buffer, so that the transfer
         # worker is blocked in a write with unsent bytes while the cuts are placed
@@ -293,6 +295,7 @@ def main(argv=None):
         focus = [c for c in plan if S[c["script"]][-1][0] == "quit" and c["cut"] in ("vanish_rst", "ctl_rst", "ctl_fin") and c["k"] >= npilot_events.get((c["script"], c["seed"], bool(c.get("net"))), 0) - 14]
         # and the download whose peer never reads: control-only cuts and shutdown at every event
         focus += [c for c in plan if c["script"] == "stalled_reader" and c["cut"] in ("ctl_rst", "ctl_fin", "server_close")]
+        focus += [c for c in plan if c["script"] == "flood_quit" and c["cut"] in ("vanish_rst", "ctl_rst", "ctl_fin", "server_close")]
         # step-granular sub-sweep: Server.close() at every event-loop step of the connect / greeting
         # / login window (a connection accepted but whose dispatcher has not started yet is
         # unknown to close())
